@@ -240,6 +240,24 @@ def run(ctx):
                               expected=f'a term of sort {smtgen.render_shape(want)}', how_to_replay='./check C16 --replay <file>')
     ctx.count('subterms with unknown sort', unknown)
     ctx.count('typed subterms', sum(1 for m in meta if m[0] == 'generator'))
+    # hand-typed terms the generator does not produce: rounding modes that are declared symbols, operands of unknown sort
+    HAND = [('(set-logic ALL)\n(declare-const r RoundingMode)\n(declare-fun g (Int) (_ FloatingPoint 8 24))\n(declare-const x Int)\n'
+             '(assert (fp.isNaN (fp.add r (g x) (_ +zero 8 24))))\n(assert (fp.isNaN (fp.mul r (g x) (g 1))))\n'
+             '(assert (fp.isNaN (fp.sqrt r (g x))))\n(assert (fp.isNaN (fp.fma r (g x) (g 1) (g 2))))\n(check-sat)\n',
+             {'(fp.add r (g x) (_ +zero 8 24))': ('_', 'FloatingPoint', '8', '24'), '(fp.mul r (g x) (g 1))': ('_', 'FloatingPoint', '8', '24'),
+              '(fp.sqrt r (g x))': ('_', 'FloatingPoint', '8', '24'), '(fp.fma r (g x) (g 1) (g 2))': ('_', 'FloatingPoint', '8', '24'),
+              'r': 'RoundingMode', '(g x)': ('_', 'FloatingPoint', '8', '24')})]
+    for text_, typed in HAND:
+        ex_ = impl.parse(text_)
+        smtlib.collect_information(ex_)
+        for node in impl.nodes.dfs(ex_):
+            key_ = str(node)
+            if key_ in typed and not smtlib.is_definition_node(node):
+                ctx.case(['hand-typed', key_], True)
+                so = smtlib.get_sort(node)
+                if so is not None and impl.to_shape(so) != typed[key_]:
+                    ctx.violation('impl-violation', input=text_, term=key_, observed=f'get_sort = {smtgen.render_shape(impl.to_shape(so))}',
+                                  expected=f'unknown or {smtgen.render_shape(typed[key_])}')
     # logic-dependent numerals: in a logic with Reals only (QF_LRA, LRA, QF_NRA ...) a numeral denotes a Real
     lra = '(set-logic QF_LRA)\n(declare-const x Real)\n(assert (<= x (- 5)))\n(assert (< (+ x 2) 7))\n(check-sat)\n'
     ex_ = impl.parse(lra)
